@@ -52,14 +52,35 @@ CODES = {
 }
 
 
+def X(headers=1, gzip=False, env=False, tmo="default"):
+    return '[headers |-> %d, gzip |-> %s, env |-> %s, tmo |-> "%s"]' % (headers, "TRUE" if gzip else "FALSE",
+                                                                     "TRUE" if env else "FALSE", tmo)
+
+
+# the exporter-option dimension: headers x compression x (options | environment) x (default | explicit timeout)
+XCFG_PRODUCT = [dict(headers=h, gzip=g, env=e, timeout=t) for h in (0, 1, 3) for g in (False, True) for e in (False, True)
+                for t in ("default", "explicit")]
+XCFGS_ALL = tset([X(c["headers"], c["gzip"], c["env"], c["timeout"]) for c in XCFG_PRODUCT])
+# pairwise covering array over (headers, gzip, env, timeout): every pair of values of two dimensions occurs
+XCFG_PAIRWISE = [dict(headers=h, gzip=g, env=e, timeout=t) for h, g, e, t in (
+    (0, False, False, "default"), (0, True, True, "explicit"), (1, False, True, "explicit"), (1, True, False, "default"),
+    (3, False, True, "default"), (3, True, False, "explicit"))]
+
+
 def defs(proto, maxel, outcomes, maxatt=4, enabled=True, backoffs="{0}", late=False, stops='{"cancel", "shutdown"}',
-         sdint=True, dev="none", maxclock=24):
+         sdint=True, dev="none", maxclock=24, callto=0, xcfgs=None):
     return {"PROTO": proto, "ENABLED": "TRUE" if enabled else "FALSE", "MAXEL": maxel, "OUTCOMES": tset(outcomes),
             "MAXATT": maxatt, "BACKOFFS": backoffs, "LATE": "TRUE" if late else "FALSE", "STOPKINDS": stops,
-            "SDINT": "TRUE" if sdint else "FALSE", "DEV": dev, "MAXCLOCK": maxclock}
+            "SDINT": "TRUE" if sdint else "FALSE", "DEV": dev, "MAXCLOCK": maxclock, "CALLTO": callto,
+            "XCFGS": xcfgs or tset([X()])}
 
 
+HUNG = O(kind="hung")
 DEVIATIONS = [  # (deviation, proto, enabled, clause the monitor must report)
+    ("headersOnRetry", "http", True, "headers-missing"),
+    ("gzipFirstOnly", "grpc", True, "encoding-differs"),
+    ("timeoutIgnored", "http", True, "attempt-beyond-timeout|blocked-beyond-max-elapsed"),
+    ("timeoutIgnored", "grpc", True, "attempt-beyond-timeout|call-beyond-timeout|blocked-beyond-max-elapsed"),
     ("RetryAfterNs", "http", True, "throttle-not-honoured"),
     ("retry400", "http", True, "retry-after-nonretryable"),
     ("exhaustedNoRI", "grpc", True, "retry-after-nonretryable"),
@@ -144,17 +165,18 @@ def concretize(proto, h, rng):
     return code
 
 
-def to_scenario(b, exp, sid, rng, tol_us, concrete=True, src="tlc"):
+def to_scenario(b, exp, sid, rng, tol_us, xcfg, concrete=True, src="tlc"):
     """TLC behaviour -> scenario for harness/c14 (None if the stop point cannot be targeted from outside)"""
     proto = b["proto"]
     hist = b["hist"]
     has_thr = any(h["i"] == "o" and h["thr"] > 0 for h in hist)
     has_tmp = any(h["kind"] == "tmpnet" for h in hist)
     has_close = any(h["kind"] == "close" for h in hist)
+    callto = b.get("callto", 0)
     if proto == "http":
         tick = 1_000_000 if has_thr else (250_000 if has_tmp else 50_000)
     else:
-        tick = 50_000
+        tick = 200_000 if callto else 50_000   # a small export timeout must stay well above the attempt latency
     items = []
     stop_before = ""
     long_backoff = False
@@ -183,8 +205,9 @@ def to_scenario(b, exp, sid, rng, tol_us, concrete=True, src="tlc"):
     sc = {"id": sid, "name": "tlc", "src": src, "exp": exp, "enabled": b["enabled"],
           "initial_us": 4_000_000 if long_backoff else 1000, "maxint_us": 4_000_000 if long_backoff else 1000,
           "maxel_us": 0 if maxel == 0 else maxel * tick + tick // 2,
-          "atto_us": 2 * tick if has_tmp else 0, "tol_us": tol_us, "tick_us": tick, "items": items, "stopBefore": stop_before,
-          "sdctx": rng.choice(["bg", "expired"]), "compress": rng.random() < 0.25,
+          "atto_us": 2 * tick if has_tmp else 0, "cto_us": callto * tick - tick // 2 if callto else 0,
+          "tol_us": tol_us, "tick_us": tick, "items": items, "stopBefore": stop_before,
+          "sdctx": rng.choice(["bg", "expired"]), "xcfg": xcfg, "grp": 0,
           "want": dict(b["want"], valid=not has_close)}
     return sc
 
@@ -194,20 +217,24 @@ def item(kind="status", code=0, partial=False, ri=False, thr_us=0, slow_us=0, st
             "stopAfter": stopAfter, "stopDelay_us": 3000 if stopAfter else 0}
 
 
-def directed(sid0, tol_us):
-    """hand-written cases run on every exporter in every run (each is also a TLC behaviour shape)"""
+def directed(sid0, tol_us, xcfgs, grp0=1):
+    """hand-written cases (each is also a TLC behaviour shape) run on every exporter under EVERY option set of
+    `xcfgs`; the scenarios of one (exporter, case) form a group whose outcome must not depend on the option set"""
     out = []
     sid = sid0
+    grp = grp0
 
     def add(exp, name, items, **kw):
-        nonlocal sid
-        sc = {"id": sid, "name": name, "src": "directed", "exp": exp, "enabled": True, "initial_us": 1000, "maxint_us": 2000,
-              "maxel_us": 0, "atto_us": 0, "tol_us": tol_us, "tick_us": 50_000, "items": items, "stopBefore": "",
-              "sdctx": "expired", "compress": False,
-              "want": {"valid": False, "attempts": 0, "err": False, "handled": 0, "clock": 0}}
-        sc.update(kw)
-        out.append(sc)
-        sid += 1
+        nonlocal sid, grp
+        for xc in xcfgs:
+            sc = {"id": sid, "name": name, "src": "directed", "exp": exp, "enabled": True, "initial_us": 1000, "maxint_us": 2000,
+                  "maxel_us": 0, "atto_us": 0, "cto_us": 0, "tol_us": tol_us, "tick_us": 50_000,
+                  "items": json.loads(json.dumps(items)), "stopBefore": "", "sdctx": "expired", "xcfg": xc, "grp": grp,
+                  "want": {"valid": False, "attempts": 0, "err": False, "handled": 0, "clock": 0}}
+            sc.update(kw)
+            out.append(sc)
+            sid += 1
+        grp += 1
 
     for exp in EXPS["http"]:
         # server throttling: Retry-After whole seconds, then success
@@ -225,7 +252,11 @@ def directed(sid0, tol_us):
             maxint_us=4_000_000)
         add(exp, "cancel-in-flight", [item(kind="hold", stop="cancel")])
         add(exp, "shutdown-in-flight", [item(kind="hold", stop="shutdown")])
-        add(exp, "temporary-net-error", [item(kind="tmpnet"), item(code=200)], atto_us=400_000, tick_us=400_000)
+        # a collector that never answers: the small explicit per-attempt timeout ends the attempt, the next one succeeds
+        add(exp, "hung-then-ok", [item(kind="tmpnet"), item(code=200)], atto_us=400_000, tick_us=400_000)
+        # ... and with a retryable answer first and the elapsed-time limit ending the call
+        add(exp, "hung-until-limit", [item(code=503), item(kind="tmpnet"), item(kind="tmpnet"), item(kind="tmpnet")], atto_us=300_000,
+            maxel_us=450_000, tick_us=300_000)
     for exp in EXPS["grpc"]:
         add(exp, "retryinfo-50ms", [item(code=14, ri=True, thr_us=50_000), item(code=0)],
             want={"valid": True, "attempts": 2, "err": False, "handled": 0, "clock": 1})
@@ -240,6 +271,12 @@ def directed(sid0, tol_us):
             maxint_us=4_000_000)
         add(exp, "cancel-in-flight", [item(kind="hold", stop="cancel")])
         add(exp, "shutdown-in-flight", [item(kind="hold", stop="shutdown")])
+        # a collector that never answers: the small explicit export timeout ends the whole call
+        add(exp, "hung-call-timeout", [item(kind="hung")], cto_us=400_000, tick_us=200_000)
+        add(exp, "retry-then-hung", [item(code=14), item(kind="hung")], cto_us=400_000, tick_us=200_000)
+        # the export timeout also ends a long backoff wait
+        add(exp, "timeout-in-long-wait", [item(code=14), item(code=0)], cto_us=400_000, tick_us=200_000, initial_us=4_000_000,
+            maxint_us=4_000_000)
     return out
 
 
@@ -292,10 +329,23 @@ def run(ctx):
                 defs(proto, 5, ALPHA[proto], maxatt=4, backoffs="{0, 2}", late=False, sdint=False), timeout=3000)
         # liveness: every call returns (or the bounded script is exhausted)
         job("live", proto, "live-%s" % proto, defs(proto, 2, ALPHA[proto], maxatt=3), timeout=1500)
+        # exporter-option dimension (headers x compression x options|environment x timeout): every clause holds for every
+        # option set, and the set of behaviours (script, prediction) is the same for all of them
+        job("xcfgs", proto, "mc-%s-xcfgs" % proto,
+            defs(proto, 2, ALPHA[proto] + ([HUNG] if proto == "grpc" else []), maxatt=3 if thorough else 2,
+                 callto=3 if proto == "grpc" else 0, xcfgs=XCFGS_ALL), want_edges=True, timeout=3000)
+    # gRPC export timeout (bounds the whole call) and a collector that never answers
+    for maxel in (0, 2):
+        job("export", "grpc", "mc-grpc-cto3-me%d" % maxel, defs("grpc", maxel, ALPHA["grpc"] + [HUNG], maxatt=4 if thorough else 3, callto=3),
+            want_edges=True, timeout=1500, coverage=(maxel == 2))
+    job("check", "grpc", "mc-grpc-cto3-late", defs("grpc", 5, ALPHA["grpc"] + [HUNG], maxatt=3, callto=3, late=True, backoffs="{0, 1}",
+                                                  sdint=False), timeout=1500)
     # the monitor must notice seeded deviations of the loop (guards against a vacuous contract)
     for dev, proto, enabled, clause in DEVIATIONS:
-        job("dev:" + dev + ":" + clause, proto, "dev-" + dev, defs(proto, 2, ALPHA[proto], maxatt=3, enabled=enabled, dev=dev),
-            must_pass=False, count=False, timeout=600)
+        grpc_to = dev == "timeoutIgnored" and proto == "grpc"
+        job("dev:" + dev + ":" + clause, proto, "dev-%s-%s" % (dev, proto),
+            defs(proto, 2, ALPHA[proto] + ([HUNG] if grpc_to else []), maxatt=3, enabled=enabled, dev=dev, callto=3 if grpc_to else 0,
+                 xcfgs=tset([X(0), X(1, gzip=True)])), must_pass=False, count=False, timeout=600)
 
     def run_job(j):
         kind, proto, kw = j
@@ -303,11 +353,11 @@ def run(ctx):
         if kw.get("want_edges"):
             kw["workers"] = 1
         else:
-            kw["workers"] = 4
+            kw["workers"] = max(1, min(4, int(os.environ.get("VERIF_TLC_WORKERS") or 4)))
         return ctx.tlc(S, "MC_OtlpRetry", cfg, **kw)
 
     from concurrent.futures import ThreadPoolExecutor
-    with ThreadPoolExecutor(max_workers=5) as ex:
+    with ThreadPoolExecutor(max_workers=max(2, min(5, int(os.environ.get("VERIF_TLC_WORKERS") or 5)))) as ex:
         futs = [ex.submit(run_job, j) for j in jobs]
         results = []
         err = None
@@ -320,6 +370,7 @@ def run(ctx):
         if err is not None:
             raise err
     behaviours = {"http": [], "grpc": []}
+    never = None
     for (kind, proto, kw), r in zip(jobs, results):
         if kind in ("export", "codes"):
             bs = load_behaviours(r["edges_file"])
@@ -327,16 +378,27 @@ def run(ctx):
                 for b in bs:
                     b["exact_codes"] = True
             behaviours[proto] += bs
+        if kind == "xcfgs":
+            by = {}
+            for b in load_behaviours(r["edges_file"]):
+                by.setdefault(json.dumps(b["xcfg"], sort_keys=True), set()).add(json.dumps([b["hist"], b["want"]], sort_keys=True))
+            sets = list(by.values())
+            ctx.extra.setdefault("option_sets_in_model", {})[proto] = len(by)
+            if len(by) != len(XCFG_PRODUCT) or any(x != sets[0] for x in sets):
+                ctx.note_inconclusive("model drift: the behaviours of OtlpRetry.tla depend on the exporter-option dimension (%s)"
+                                      % r["out"])
         if kw.get("coverage"):
-            zc = [a for a in r["zero_cov"] if a not in ("TickIgnoringCtx", "Finished")]  # deviation-only action, stuttering
-            if zc:
-                ctx.note_inconclusive("vacuity: actions never taken in %s: %s" % (r["name"], zc))
+            # an action must be taken in at least one of the coverage runs (HTTP has no export deadline, gRPC no tmpnet)
+            zc = set(a for a in r["zero_cov"] if a not in ("TickIgnoringCtx", "Finished"))  # deviation-only action, stuttering
+            never = zc if never is None else never & zc
         if kind.startswith("dev:"):
             _, dev, clause = kind.split(":")
             out = open(r["out"], errors="replace").read()
             if r["violated"] != "Inv" or not any(('kind |-> "%s"' % c) in out for c in clause.split("|")):
                 ctx.note_inconclusive("model drift: deviation %s is not reported as %s by the contract monitor (%s)"
                                       % (dev, clause, r["out"]))
+    if never:
+        ctx.note_inconclusive("vacuity: actions never taken in any coverage run: %s" % sorted(never))
     ctx.extra["tlc_behaviours"] = {p: len(v) for p, v in behaviours.items()}
     phases["tlc"] = round(time.time() - t_start, 1)
 
@@ -346,13 +408,17 @@ def run(ctx):
     sid = 1
     uncovered = 0
     skipped_uncontrollable = 0
+    xorder = list(XCFG_PRODUCT)
+    rng.shuffle(xorder)
+    xi = 0
     for proto in ("http", "grpc"):
         chosen, unc = select(behaviours[proto], per_proto, rng)
         uncovered += unc
         for i, b in enumerate(chosen):
             exps = EXPS[proto] if thorough and i % 4 == 0 else [EXPS[proto][(i + ctx.seed) % 3]]
             for exp in exps:
-                sc = to_scenario(b, exp, sid, rng, tol_us, concrete=not b.get("exact_codes"))
+                xi += 1   # every behaviour draws the next option set of the (shuffled) full product
+                sc = to_scenario(b, exp, sid, rng, tol_us, xorder[xi % len(xorder)], concrete=not b.get("exact_codes"))
                 if sc is None:
                     skipped_uncontrollable += 1
                     continue
@@ -361,7 +427,8 @@ def run(ctx):
     ctx.extra["behaviour_features_uncovered_by_sample"] = uncovered
     ctx.extra["behaviours_skipped_stop_not_targetable"] = skipped_uncontrollable
     nbeh = len(scenarios)
-    scenarios += directed(sid, tol_us)
+    # directed stop / cancel / timeout / throttle families: pairwise option sets (quick), full product (thorough)
+    scenarios += directed(sid, tol_us, XCFG_PRODUCT if thorough else XCFG_PAIRWISE)
     sid = scenarios[-1]["id"] + 1
     ctx.extra["tlc_behaviours_replayed"] = nbeh
     ctx.extra["directed_cases"] = len(scenarios) - nbeh
@@ -426,6 +493,8 @@ def run(ctx):
             if vv["kind"] in ("throttle-not-honoured", "retry-after-nonretryable", "failure-not-reported", "gave-up-early",
                               "nil-without-success", "error-despite-success"):
                 sig["code"] = vv["code"]
+            if vv["kind"] == "cfg-dependent-outcome":
+                sig["case"] = cfg.get("name")
             if vv["kind"] == "attempt-after-max-elapsed":
                 # x = collector-side elapsed + throttle; was the limit exceeded only because of the server-supplied delay?
                 sig["why"] = "throttle" if vv["x"] - vv["thr"] <= cfg.get("maxel", 0) and vv["thr"] > 0 else "elapsed"
@@ -443,6 +512,8 @@ def run(ctx):
         keyed = []
         rid = 900000
         per_sig = {}
+        gid = 800000
+        all_scripted = [x for _, _, _, by_id in runs for x in by_id.values()]
         for (scid, clause), (sc, sig, replay) in sorted(soft_pending.items(), key=lambda kv: kv[0]):
             sk = json.dumps(sig, sort_keys=True)
             if per_sig.get(sk, 0) >= 3:   # three witnesses per signature are enough
@@ -454,11 +525,17 @@ def run(ctx):
                 unconfirmed += 1
                 continue
             per_sig[sk] = per_sig.get(sk, 0) + 1
+            # an outcome that depends on the option set is a property of the whole group: re-run all its members
+            members = [x for x in all_scripted if x.get("grp") and x["grp"] == sc.get("grp")] if clause == "cfg-dependent-outcome" else [sc]
             for rep in range(2):
-                c = dict(sc, id=rid, name=sc.get("name", "") + "-rerun")
-                rer.append(c)
-                keyed.append((rid, clause, (scid, clause)))
-                rid += 1
+                ids = []
+                gid += 1
+                for mbr in members:
+                    c = dict(mbr, id=rid, name=mbr.get("name", "") + "-rerun", grp=gid if len(members) > 1 else 0)
+                    rer.append(c)
+                    ids.append(rid)
+                    rid += 1
+                keyed.append((ids, clause, (scid, clause)))
         if rer:
             tf3, res3 = execute(rer, "rerun", 8)
             viols3, _ = ctx.validate_trace(S, "Trace_OtlpRetry", "Trace_OtlpRetry.cfg", tf3, name="trace-rerun", timeout=3000)
@@ -466,8 +543,8 @@ def run(ctx):
             for v in viols3:
                 hit.setdefault(v["sc"], set()).add(v["v"]["kind"])
             per = {}
-            for rid_, clause, key in keyed:
-                per.setdefault(key, []).append(clause in hit.get(rid_, set()))
+            for ids, clause, key in keyed:
+                per.setdefault(key, []).append(any(clause in hit.get(i, set()) for i in ids))
             for key, oks in per.items():
                 sc, sig, replay = soft_pending[key]
                 if all(oks):
@@ -481,8 +558,9 @@ def run(ctx):
     ctx.extra["counters"] = counters
     ctx.extra["violation_kinds_seen"] = kinds
     # vacuity of the drivers: the interesting regimes must have been reached
-    for need in ("item_throttled", "item_hold", "item_tmpnet", "stop_cancel", "stop_shutdown", "exp_tracehttp", "exp_tracegrpc",
-                 "exp_metrichttp", "exp_metricgrpc", "exp_loghttp", "exp_loggrpc"):
+    for need in ("item_throttled", "item_hold", "item_tmpnet", "item_hung", "stop_cancel", "stop_shutdown", "exp_tracehttp",
+                 "exp_tracegrpc", "exp_metrichttp", "exp_metricgrpc", "exp_loghttp", "exp_loggrpc", "xcfg_headers0", "xcfg_headers1",
+                 "xcfg_headers3", "xcfg_gzip", "xcfg_env", "xcfg_timeout_explicit", "xcfg_timeout_default"):
         if not counters.get(need):
             ctx.note_inconclusive("driver vacuity: counter %s is zero" % need)
     ctx.exhaustive = False
@@ -493,6 +571,9 @@ def run(ctx):
         "exporter Shutdown counts as 'shut down' once Shutdown has returned; exporters whose Shutdown waits for the running export satisfy the clause trivially",
         "payload identity on gRPC is the digest of the deterministic re-marshalling of the received message",
         "TLC alphabets use representative codes; the harness concretizes them per statement class, the contract re-classifies the concrete code",
+        "exporter options (0/1/3 headers, gzip, options vs OTEL_EXPORTER_OTLP_* environment, default vs explicit timeout) are drawn per scenario; "
+        "the contract depends on them only through 'configured headers and encoding accompany every attempt'",
+        "a collector that never answers is bounded by a small explicit timeout (HTTP: per attempt, gRPC: whole call) + 1 s tolerance, must repeat",
     ]
     ctx.extra["rule"] = ("behaviours: terminal behaviours of OtlpRetry.tla for the listed configs, covering sample by feature "
                          "(position x outcome, stop kind x place, result, clock); random: seeded scripts/configs")
@@ -508,6 +589,8 @@ def rebuild_from_trace(evs, tol_us):
     items = []
     for e in evs:
         if e["ev"] == "Resp":
+            if len(items) >= e["n"]:
+                continue   # an unanswered (held / hung) request that was answered after all: keep the script's item
             items.append(item(kind=e["kind"], code=e["code"], partial=e["partial"], ri=e["ri"], thr_us=e["thr"]))
     stop_before = ""
     order = [e["ev"] for e in evs]
@@ -525,6 +608,7 @@ def rebuild_from_trace(evs, tol_us):
                     items[nresp - 1]["stopAfter"] = how
                 break
     return {"id": 0, "name": "rebuilt", "src": "rerun", "exp": cfg["exp"], "enabled": cfg["enabled"], "initial_us": cfg["initial"],
-            "maxint_us": cfg["maxint"], "maxel_us": cfg["maxel"], "atto_us": cfg["atto"], "tol_us": tol_us, "tick_us": cfg["tick"],
-            "items": items, "stopBefore": stop_before, "sdctx": "expired", "compress": False,
+            "maxint_us": cfg["maxint"], "maxel_us": cfg["maxel"], "atto_us": cfg["atto"], "cto_us": cfg["cto"], "tol_us": tol_us,
+            "tick_us": cfg["tick"], "items": items, "stopBefore": stop_before, "sdctx": "expired", "grp": 0,
+            "xcfg": {"headers": cfg["nhdr"], "gzip": cfg["enc"] == "gzip", "env": cfg["env"], "timeout": cfg["tmo"]},
             "want": {"valid": False, "attempts": 0, "err": False, "handled": 0, "clock": 0}}
